@@ -137,6 +137,12 @@ _add("C20",
      "Trusted: tokio's paused clock; the connection task's timer origin is observed (client handshake write for dialled, the manager's Incoming event for incoming connections). Unknown message ids are not counted as 'other messages'.",
      assumptions=SIM_ASSUMPTIONS)
 
+_add("C18",
+     "runtime capture of the real HTTP request: the production TrackerClient::run (reqwest) announces to a loopback listener inside the harness; an independent request/query parser compares path, Host, surviving query parameters, info_hash bytes, peer_id, port and left with the ground truth",
+     "seeded torrents with random info dictionaries (so that info_hash bytes take every value incl. NUL, '&', '%', '+', >= 0x80; the set seen is recorded), random alphanumeric peer ids, total lengths {0, 1, 2^40-1, 2^40, random}, announce URLs {no path, /announce, nested path, ?k=v, ?k=v&x=y, trailing ?, pre-encoded value, two parameters, trailing &}. Each case is one real announce over TCP on 127.0.0.1. Distinct non-trivial = distinct torrents whose announce was captured and passed.",
+     "Exploration: 400 (quick) / 1e4 (thorough) real announces through reqwest; every captured request is fully parsed and compared.",
+     "Trusted: the harness' HTTP head and form-urlencoded parser; loopback networking in the sandbox. Real time is used only as a 20 s watchdog (=> inconclusive).")
+
 NOT_APPLICABLE = []
 
 HOOK_COMMITS = ['f4e11fff6207578681bfe159fde132435a75db6b', 'c80cd8e781736d9cf047ae63c4117d911e79b492', '36e923c803e32367e0b9567db19ed45c7e679e57', 'd4d0caac768fbc161be45a56b818f54b8f8544b7', '18ace6ea4c44e4f9b55cbb2adc1f6155c1036680']
